@@ -104,6 +104,10 @@ type Server struct {
 	mu      sync.Mutex
 	Trace   []Event
 	Commits []Commit
+	// Accepted: like Commits, but recorded at the moment the server decides to accept at end-of-data - also when
+	// the reply can no longer be delivered because the client has closed the connection (Commits needs the reply
+	// to be written).  Added for sendx; Commits is unchanged.
+	Accepted []Commit
 	SawEOF  bool   // the client closed the connection (server read EOF)
 	ReadErr string // other read error
 	Done    chan struct{}
@@ -281,6 +285,7 @@ func (s *Server) Serve(conn net.Conn) {
 		sess.tls = true
 	}
 	br := bufio.NewReader(conn)
+	var eodData []byte // the content of the DATA block whose end-of-data is being answered
 	send := func(e *Event, verb string, d Decision) bool {
 		code, text := defaultReply(verb, s, sess)
 		switch d.Kind {
@@ -324,6 +329,12 @@ func (s *Server) Serve(conn net.Conn) {
 			e.Accepted = code >= 300 && code < 400
 		}
 		s.record(*e)
+		if verb == "EOD" && e.Accepted {
+			// the server has accepted the message now, whether or not the client is still there to read the reply
+			s.mu.Lock()
+			s.Accepted = append(s.Accepted, Commit{From: sess.from, Rcpt: append([]string(nil), sess.rcpt...), Data: append([]byte(nil), eodData...)})
+			s.mu.Unlock()
+		}
 		if _, err := conn.Write([]byte(e.Reply)); err != nil {
 			return false
 		}
@@ -601,6 +612,7 @@ func (s *Server) Serve(conn net.Conn) {
 					data.WriteString(dl)
 				}
 				ee := Event{Verb: "EOD", TLS: sess.tls, Legal: true}
+				eodData = data.Bytes()
 				if !send(&ee, "EOD", s.next()) {
 					return
 				}
@@ -656,4 +668,11 @@ func Transcript(tr []Event) []string {
 		out = append(out, s)
 	}
 	return out
+}
+
+// SnapshotAccepted returns a copy of the messages accepted at end-of-data (see Server.Accepted).
+func (s *Server) SnapshotAccepted() []Commit {
+	s.mu.Lock()
+	defer s.mu.Unlock()
+	return append([]Commit(nil), s.Accepted...)
 }
